@@ -16,10 +16,10 @@ import (
 	"github.com/ipfs/go-log/v2"
 	"github.com/keep-network/keep-core/pkg/bitcoin"
 	"github.com/keep-network/keep-core/pkg/chain"
+	"github.com/keep-network/keep-core/pkg/internal/verifhook"
 	"github.com/keep-network/keep-core/pkg/protocol/group"
 	"github.com/keep-network/keep-core/pkg/tecdsa"
 	"go.uber.org/zap"
-	"github.com/keep-network/keep-core/pkg/internal/verifhook"
 )
 
 // WalletActionType represents actions types that can be performed by a wallet.
